@@ -135,12 +135,12 @@ def run(ctx):
                 "non-trivial iff ≥ 2 datagrams with stream data, both directions, exported exactly.")
     ctx.assumptions = ["ground truth comes from harness/gen_quic.py (independent RFC sender); datagrams are told apart by "
                        "their capture timestamps as the property says"]
-    import c02_model, c02_file_thms, c02_capstone3_thms, c02_capstone4_thms, c02_rfc_thms, c02_zr_thms, file_corr
+    import c02_model, c02_file_thms, c02_capstone3_thms, c02_capstone4_thms, c02_rfc_thms, c02_zr_thms, c02_all_thms, file_corr
     import translate                 # decision-logic functions re-translated from the source and proved equal to the model
     _tm, _tt = translate.wire(ctx, "C02")
-    ctx.prove(c02_model.modules() + ["TLX.Props.C16", "TLX.Props.C17"] + c02_file_thms.MODULES + c02_capstone3_thms.MODULES + c02_capstone4_thms.MODULES + c02_rfc_thms.MODULES + c02_zr_thms.MODULES + _tm)
+    ctx.prove(c02_model.modules() + ["TLX.Props.C16", "TLX.Props.C17"] + c02_file_thms.MODULES + c02_capstone3_thms.MODULES + c02_capstone4_thms.MODULES + c02_rfc_thms.MODULES + c02_zr_thms.MODULES + c02_all_thms.MODULES + _tm)
     ctx.require_theorems(_tt)
-    ctx.require_theorems(c02_model.theorems() + c02_file_thms.THEOREMS + c02_capstone3_thms.THEOREMS + c02_capstone4_thms.THEOREMS + c02_rfc_thms.THEOREMS + c02_zr_thms.THEOREMS)   # C02File: C02 as ONE theorem about exportFile
+    ctx.require_theorems(c02_model.theorems() + c02_file_thms.THEOREMS + c02_capstone3_thms.THEOREMS + c02_capstone4_thms.THEOREMS + c02_rfc_thms.THEOREMS + c02_zr_thms.THEOREMS + c02_all_thms.THEOREMS)   # C02File: C02 as ONE theorem about exportFile
     c02_model.run_model(ctx)          # ties every QUIC component model to the real code
     file_corr.correspond(ctx, ctx.n(20, 400))     # ties exportFile (capture FILE + key-log file → output FILE) byte for byte
     explore(ctx)
